@@ -753,6 +753,16 @@ func TestSubtleSigDecode(t *testing.T) {
 	})
 }
 
+// guarded runs an encoder and turns a panic into a failure that prints the case.
+func guarded(t *rapid.T, ctx, name string, f func() ([]byte, error)) (out []byte, err error) {
+	defer func() {
+		if p := recover(); p != nil {
+			t.Fatalf("%s\n %s panics: %v", ctx, name, p)
+		}
+	}()
+	return f()
+}
+
 // TestSubtleSigEncode: Encode(r, s) is the reference's canonical encoding (the curve's width for
 // IEEE P1363, an error when a value does not fit) and Decode(Encode(r, s)) == (r, s), on both API
 // levels; unsupported curve and encoding names are refused.
@@ -779,7 +789,7 @@ func TestSubtleSigEncode(t *testing.T) {
 			{"ASN1Encode", func() ([]byte, error) { return internalecdsa.ASN1Encode(isig) }},
 			{"EncodeECDSASignature(DER)", func() ([]byte, error) { return ssig.EncodeECDSASignature("DER", cu.goName) }},
 		} {
-			got, err := e.f()
+			got, err := guarded(rt, ctx, e.name, e.f)
 			if err != nil || !bytes.Equal(got, wantDER) {
 				rt.Fatalf("%s\n %s = %x, err=%v\n canonical DER          = %x", ctx, e.name, got, err, wantDER)
 			}
@@ -805,7 +815,7 @@ func TestSubtleSigEncode(t *testing.T) {
 				{"IEEEP1363Encode", func() ([]byte, error) { return internalecdsa.IEEEP1363Encode(isig, c2.goName) }},
 				{"EncodeECDSASignature(IEEE_P1363)", func() ([]byte, error) { return ssig.EncodeECDSASignature("IEEE_P1363", c2.goName) }},
 			} {
-				got, err := e.f()
+				got, err := guarded(rt, ctx, e.name, e.f)
 				if !fits {
 					if err == nil {
 						rt.Fatalf("%s\n %s(%s) returns %x for a value wider than %d bytes; want an error", ctx, e.name, c2.goName, got, c2.size)
